@@ -4,6 +4,9 @@ From DynVerif Require Import Base Graph Spec.
 From DynVerif.proofs Require Import CoreInv C01Facts.
 From DynVerif Require Import Rename.
 From DynVerif.proofs Require Import RenameCore RenameInjCore RenameInjConf.
+From DynVerif Require Import PySupportCore.
+From DynVerif.gen Require Import PyGenCore.
+From DynVerif.proofs Require Import PyGenCoreEq.
 
 (** For every finite sequence of add_interaction calls [cs] on an empty removal-enabled graph of
     either class, with [h] the accepted calls: presence at every instant is the union of the spans. *)
@@ -43,6 +46,24 @@ Print Assumptions C01_monotone_frame.
 
 (** non-vacuity: a 6-call history with overlap, adjacency, a gap, a contained span, a reversed endpoint
     order and a rejected call; the accepted part is non-trivial and presence is as the spans say *)
+(** source-level tie: the Gallina text GENERATED from the Python methods `has_interaction` and `__presence_test` of BOTH classes
+    (regenerated from /repo on every run by tools/py2gallina_core.py: early returns, the scan loop, the envelope test) is the
+    model's [has_interaction], for every graph state, every pair and every t (None included) *)
+Theorem C01_source_text : forall (g : graph) (u v : Z) (t : option Z),
+  py_has_interaction_graph g u v t = has_interaction g u v t /\
+  py_has_interaction_digraph g u v t = has_interaction g u v t.
+Proof. intros. split; [apply py_has_interaction_graph_eq|apply py_has_interaction_digraph_eq]. Qed.
+Print Assumptions C01_source_text.
+
+(** hence the generated text itself computes the union of the added spans (each class's text on its own class) *)
+Theorem C01_source_to_spec : forall (cs : list call) (u v tau : Z),
+  py_has_interaction_graph (run_calls (G0 false) cs) u v (Some tau) = pres false true (accepted (G0 false) cs) (nk false u v) tau /\
+  py_has_interaction_digraph (run_calls (G0 true) cs) u v (Some tau) = pres true true (accepted (G0 true) cs) (nk true u v) tau.
+Proof.
+  intros. split; [rewrite py_has_interaction_graph_eq|rewrite py_has_interaction_digraph_eq]; apply C01Facts.presence_thm.
+Qed.
+Print Assumptions C01_source_to_spec.
+
 Example C01_example :
   let cs := [mkCall 1 2 0 (Some 3); mkCall 2 1 2 (Some 6); mkCall 1 2 6 None; mkCall 1 2 9 (Some 11);
              mkCall 1 2 3 None; mkCall 2 1 9 (Some 10)] in
